@@ -129,7 +129,14 @@ func rerun(v *Violation) (string, error) {
 			return f.Observed, nil
 		}
 	}
-	return "no violation of " + v.Clause + "/" + v.Class + " on this input", nil
+	other := ""
+	for _, f := range found {
+		other += " [" + f.Clause + "/" + f.Class + ": " + f.Observed + "]"
+	}
+	if other != "" {
+		other = "; other violations on this input:" + other
+	}
+	return "no violation of " + v.Clause + "/" + v.Class + " on this input" + other, nil
 }
 
 var checks = map[string]*Check{}
@@ -290,6 +297,45 @@ func WorkerMain() {
 // result in item order (results are buffered and re-ordered). handle runs in
 // the caller's goroutine.
 func ParMap[I, O any](rc *RunCtx, job string, items []I, handle func(i int, in I, out O)) {
+	parMap(rc, job, items, false, handle)
+}
+
+// ParMapFresh is ParMap with one brand-new worker process per item: the item
+// is the first thing that process ever does (virgin process-wide state).
+func ParMapFresh[I, O any](rc *RunCtx, job string, items []I, handle func(i int, in I, out O)) {
+	parMap(rc, job, items, true, handle)
+}
+
+type workerProc struct {
+	cmd    *exec.Cmd
+	stdin  io.WriteCloser
+	rd     *bufio.Reader
+	enc    *json.Encoder
+	errbuf tailBuf
+}
+
+func startWorker(w int) (*workerProc, error) {
+	p := &workerProc{}
+	p.cmd = exec.Command(os.Args[0], "--worker")
+	p.cmd.Env = append(os.Environ(), "GOMAXPROCS=1", "VERIF_WORKER="+strconv.Itoa(w))
+	p.stdin, _ = p.cmd.StdinPipe()
+	stdout, _ := p.cmd.StdoutPipe()
+	p.cmd.Stderr = &p.errbuf
+	if err := p.cmd.Start(); err != nil {
+		return nil, err
+	}
+	p.rd = bufio.NewReaderSize(stdout, 1<<20)
+	p.enc = json.NewEncoder(p.stdin)
+	return p, nil
+}
+
+func (p *workerProc) stop() {
+	p.stdin.Close()
+	io.Copy(io.Discard, p.rd)
+	p.cmd.Wait()
+}
+
+func parMap[I, O any](rc *RunCtx, job string, items []I, fresh bool, handle func(i int, in I, out O)) {
 	n := rc.Workers
 	if n > len(items) {
 		n = len(items)
@@ -312,31 +358,33 @@ func ParMap[I, O any](rc *RunCtx, job string, items []I, handle func(i int, in I
 		wg.Add(1)
 		go func(w int) {
 			defer wg.Done()
-			cmd := exec.Command(os.Args[0], "--worker")
-			cmd.Env = append(os.Environ(), "GOMAXPROCS=1", "VERIF_WORKER="+strconv.Itoa(w))
-			stdin, _ := cmd.StdinPipe()
-			stdout, _ := cmd.StdoutPipe()
-			var errbuf tailBuf
-			cmd.Stderr = &errbuf
-			if err := cmd.Start(); err != nil {
-				rc.Fail("cannot start worker: %v", err)
-				return
-			}
-			rd := bufio.NewReaderSize(stdout, 1<<20)
-			enc := json.NewEncoder(stdin)
+			var p *workerProc
+			defer func() {
+				if p != nil {
+					p.stop()
+				}
+			}()
 			for i := range next {
 				if rc.failedNow() {
 					break
 				}
+				if p == nil {
+					var err error
+					if p, err = startWorker(w); err != nil {
+						rc.Fail("cannot start worker: %v", err)
+						return
+					}
+				}
 				b, _ := json.Marshal(items[i])
-				if err := enc.Encode(wireIn{Job: job, Seq: i, Item: b}); err != nil {
-					rc.Fail("worker %d died before item %d of %s: %v\n%s", w, i, job, err, errbuf.String())
+				if err := p.enc.Encode(wireIn{Job: job, Seq: i, Item: b}); err != nil {
+					rc.Fail("worker %d died before item %d of %s: %v\n%s", w, i, job, err, p.errbuf.String())
 					break
 				}
-				line, err := rd.ReadBytes('\n')
+				line, err := p.rd.ReadBytes('\n')
 				if err != nil {
-					cmd.Wait()
-					rc.Fail("worker %d crashed on item %d of %s (%s): %v\n%s", w, i, job, string(b), err, errbuf.String())
+					p.cmd.Wait()
+					rc.Fail("worker %d crashed on item %d of %s (%s): %v\n%s", w, i, job, trunc(string(b), 2000), err, p.errbuf.String())
+					p = nil
 					break
 				}
 				var o wireOut
@@ -354,10 +402,11 @@ func ParMap[I, O any](rc *RunCtx, job string, items []I, handle func(i int, in I
 					break
 				}
 				results <- res{i, out}
+				if fresh {
+					p.stop()
+					p = nil
+				}
 			}
-			stdin.Close()
-			io.Copy(io.Discard, rd)
-			cmd.Wait()
 		}(w)
 	}
 	go func() { wg.Wait(); close(results) }()
@@ -375,6 +424,13 @@ func ParMap[I, O any](rc *RunCtx, job string, items []I, handle func(i int, in I
 			want++
 		}
 	}
+}
+
+func trunc(s string, n int) string {
+	if len(s) > n {
+		return s[:n] + "..."
+	}
+	return s
 }
 
 func (rc *RunCtx) failedNow() bool {
